@@ -34,7 +34,8 @@ PROPERTIES = {
              'required_probes': ['probe.outputs_compared', 'probe.block_files_written', 'probe.fewer_frames_than_threads', 'probe.three_tasks_blocked', 'probe.eof_seen',
                                  'probe.reader_lammps_dump', 'probe.reader_gro', 'probe.reader_pdb', 'probe.reader_xyz', 'probe.reader_dlpoly_history', 'probe.threebody_distribution_compared']},
             {'name': 'c05_prdf', 'quick': 1500, 'thorough': 200000, 'san': 10000, 'chunk': 500,
-             'required_probes': ['probe.outputs_compared', 'probe.block_files_written', 'probe.three_tasks_blocked']},
+             'required_probes': ['probe.outputs_compared', 'probe.block_files_written', 'probe.three_tasks_blocked',
+                                 'probe.topology_from_gro', 'probe.topology_from_pdb', 'probe.topology_from_xyz']},
             {'name': 'c05_tmpl', 'quick': 1000, 'thorough': 100000, 'san': 10000, 'chunk': 500,
              'required_probes': ['probe.outputs_compared', 'probe.three_tasks_blocked']},
             {'name': 'c05_orient', 'quick': 1500, 'thorough': 200000, 'san': 10000, 'chunk': 500,
@@ -48,7 +49,7 @@ PROPERTIES = {
             'real_tools': ['c05_stat: csg/src/tools/csg_stat.cc + csg_stat_imc.cc (ordered)', 'c05_prdf: csg/src/csgapps/partial_rdf/*.cc (ordered)',
                            'c05_tmpl: csg/share/template/template_threaded.cc (ordered)', 'c05_orient: csg/src/csgapps/orientcorr/orientcorr.cc (unordered)',
                            'c05_reupd: csg/src/tools/csg_reupdate.cc (unordered)',
-                           'each with its real main() (renamed at compile time), the real XML topology reader, mapping, neighbour search and the real LAMMPS dump / GRO / PDB / XYZ / DL_POLY HISTORY trajectory readers behind a decorator that adds enter/leave monitors and decision points'],
+                           'each with its real main() (renamed at compile time), the real XML topology reader (or, for --top, the real GRO / PDB / XYZ topology readers, one reader object used once per worker), mapping, neighbour search and the real LAMMPS dump / GRO / PDB / XYZ / DL_POLY HISTORY trajectory readers behind a decorator that adds enter/leave monitors and decision points'],
             'stub': ['c05_lib: application subclass, worker, synthetic .simtop/.simtrj readers are harness code',
                      'pthread_create/join/exit/mutex_*: simulated (tasks = ucontext coroutines, mutex = bit + waiters, glibc default-mutex semantics without owner check)'],
         },
